@@ -8,8 +8,9 @@ SR = 'pexpect.expect.searcher_re.'
 
 PROPS = {
     'C02': {
-        'contracts': [SS + 'search', E + 'do_search'],
+        'contracts': [SS + '__init__', SS + 'search', SR + '__init__', SR + 'search', E + 'do_search'],
         'assumptions': [
+            're.Pattern.search(buffer, pos) returns None or a match with pos <= start <= end <= len(buffer); which occurrence it selects (leftmost from pos) is the re engine\'s contract',
             'str.find / bytes.find(sub, start) returns -1 or the least position >= the clamped start at which sub occurs (assumed contract, cross-checked against CPython)',
         ],
     },
